@@ -373,7 +373,7 @@ func (m *modelL1) stepFinalize(x *ophosttypes.MsgFinalizeTokenWithdrawal, bc blo
 	}
 	var leaf prover.Hash
 	if !x.Amount.Amount.IsUint64() {
-		p.failBecause("claim.amount-over-64-bits", "claim-amount-over-64-bits", "C03")
+		p.failBecause("claim.amount-over-64-bits", "claim-amount-over-64-bits", "C03", "C01")
 	} else {
 		leaf = prover.Leaf(x.BridgeId, x.Sequence, x.From, x.To, x.Amount.Denom, x.Amount.Amount.Uint64())
 		var proof []prover.Hash
@@ -386,11 +386,11 @@ func (m *modelL1) stepFinalize(x *ophosttypes.MsgFinalizeTokenWithdrawal, bc blo
 			p.failBecause("claim.proof-mismatch", "claim-proof-mismatch", "C03")
 		}
 		if b.Claims[leaf] {
-			p.failBecause("claim.already-claimed", "claim-already-claimed", "C02", "C01")
+			p.failBecause("claim.already-claimed", "claim-already-claimed", "C02", "C01", "C08")
 		}
 	}
 	if p.Kind != mustFail && m.Bal.get(prover.Escrow(b.ID), x.Amount.Denom).Cmp(x.Amount.Amount.BigInt()) < 0 {
-		p.failBecause("claim.escrow-underfunded", "claim-escrow-underfunded", "C01")
+		p.failBecause("claim.escrow-underfunded", "claim-escrow-underfunded", "C01", "C02")
 	}
 	if p.Kind == mustSucceed && f == triBand {
 		p.Kind = either
